@@ -47,13 +47,24 @@ META = {
              "point is skipped and counted; comparison at 1e-6); the same oracle judges posteriors with a gallery prior (user-defined "
              "likelihood, Gaussian likelihood of a linear model, two likelihoods); stacked joints of two independent parts (exact sum / "
              "concatenation: refused, derivative with FD), UserDefinedLikelihood (pass-through / refused; sum rule of its posterior), "
-             "JointGaussianSqrtPrec and JointDistribution (refused)."),
+             "JointGaussianSqrtPrec and JointDistribution (refused). Containers (specs/FamiliesPoint.tla; invariants CtTableLegal, "
+             "ContainerIndependent, ProbeNaNOutside, ProbeCover, LatticeIntegers; deviation DevKeepsNumberType - the out-of-support answer "
+             "built in the number type of the point - refuted by TLC): the gradient is a function of the VALUE of the evaluation point; the "
+             "spec lists 13 container kinds (float64 array = reference, float32 / int64 / int32 arrays, lists of floats / python ints, "
+             "CUQIarrays of floats / integers, a non-contiguous view, python / numpy float and integer scalars in dimension one) with "
+             "their admissibility (the container holds the point exactly) and adds probe configurations of the bounded families (Gamma, "
+             "InverseGamma, Beta, Uniform, Lognormal, ModifiedHalfNormal) in dimensions 1-3 with integer-valued and half-integer points "
+             "inside the support, one / all coordinates below or above it, one / all coordinates ON the boundary; the replay evaluates "
+             "every probe case in every admissible container, analytic and with enable_FD() (outside: non-finite; inside: the exact "
+             "vector; boundary: no value asserted, only the same answer as for the reference container), and adds one rotating admissible "
+             "container next to EVERY reference gradient call of the main lattice (families, Gaussian input forms, MRFs, likelihoods, "
+             "posteriors, multiple-likelihood posteriors; FD every second call); the argument must not be modified."),
     "note": ("A raised exception is accepted wherever a vector is specified (the property only constrains returned vectors) and is "
              "reported as an observation; FD results are compared at forward-difference accuracy; PDE-based models are "
              "not modelled; DistributionGallery: no documented density exists, the oracle is the extrapolated central difference of "
              "the object's own logd (not exact: tolerance 1e-6 relative, ten times the accepted error estimate); user-defined "
              "distributions / likelihoods: pass-through of gradient_func, refusal without one, finite differences of logpdf_func."),
-    "technique": ("TLA+ spec (Families, FamiliesSeq, FamiliesGallery, SymLog) model-checked with TLC; TLC-emitted exact gradients (gallery: "
+    "technique": ("TLA+ spec (Families, FamiliesSeq, FamiliesGallery, FamiliesPoint, SymLog) model-checked with TLC; TLC-emitted exact gradients (gallery: "
                   "TLC-checked extrapolation tableau of the object's own log-density) replayed into cuqi objects"),
 }
 
@@ -148,14 +159,14 @@ def _grad_checks(ctx, table, case, fam, way, d, builder, x, gexp, extra="", fd_o
           fc.call(lambda: dist.gradient(np.array(x))), gexp, d, tag="%s/%s" % (fam, way.split("+")[0]))
     # part Containers (FamiliesPoint.tla): the same object again with the point in one further admissible container
     from cuqiverif import c03_point
-    ckind = c03_point.pick(x, tfam) if geom == "identity" else None
+    ckind = c03_point.pick(x, tfam) if geom == "identity" else []
     c03_point.extra(ctx, case, _sig("gradient", fam, way, d, case, extra), _outcome(table, tfam, False, geom, False), dist, x, gexp, d,
                     ckind, tag="%s/%s" % (tfam, way.split("+")[0]))
     if fd_ok:
         st2, _, _ = fc.call(lambda: dist.enable_FD())
         if st2 == "value":
             c03_point.extra(ctx, case, _sig("gradientFD", fam, way, d, case, extra), _outcome(table, tfam, False, geom, True), dist, x,
-                            gexp, d, ckind, fd=True, logf=logf, tag="%s/%s" % (tfam, way.split("+")[0]))
+                            gexp, d, c03_point.fd_turn(ckind), fd=True, logf=logf, tag="%s/%s" % (tfam, way.split("+")[0]))
             # Cauchy / SmoothedLaplace / Uniform override gradient(): the FD flag has no effect there (trivial repeat)
             ctx.case(("gradFD", fc.case_id(case), way, extra, geom), nontrivial=fam not in ("Cauchy", "SmoothedLaplace", "Uniform"),
                      facet="gradient_fd")
@@ -479,7 +490,7 @@ def check_lik(ctx, case, idx, dom=None):
     ctx.case(("gradlik", cid, gtag), facet="likelihood_gradient" + ("_expansion" if dom else ""))
     judge(ctx, case, "gradient/" + base, outcome, fc.call(lambda: lik.gradient(np.array(x))), gl, n, tag="lik%s/%s" % (gtag, mk))
     from cuqiverif import c03_point
-    ckind = c03_point.pick(x, "lik/" + mk) if dom is None else None       # part Containers: one further admissible container
+    ckind = c03_point.pick(x, "lik/" + mk) if dom is None else []       # part Containers: one further admissible container
     c03_point.extra(ctx, case, "gradient/" + base, outcome, lik, x, gl, n, ckind, tag="lik/%s" % mk)
     pr = case["prior"]
     if pr["kind"] == "none":
@@ -693,7 +704,8 @@ def run(ctx):
                 "use of the original, Evaluate B, Evaluate A plus behaviours of FamiliesSeq.Siblings in rotation (thorough: all of "
                 "them); points: one case per (dimension-1 configuration, way of passing parameters, container kind, FD flag); classes: "
                 "one case per (benchmark, lattice point, pass / container / FD), per (posterior kind, benchmark, every 7th lattice point) "
-                "and per stacked pair")
+                "and per stacked pair; containers: one case per (probe configuration, way of passing parameters, admissible container kind, "
+                "FD flag) and one per reference gradient call of the main lattice (rotating container kind)")
     ctx.exhaustive = True
     ctx.traces = n
     ctx.assumptions += ["equality 'gradient = derivative of this object's log-density' uses the same lattice points whose logpdf is "
@@ -706,7 +718,10 @@ def run(ctx):
                         "differences of the object's own logd, accepted when |R2 - R1(h/2)| + rounding bound <= 1e-7 max(1, |ref|); comparison "
                         "at 1e-6 max(1, |ref|); the benchmarks are analytic on the stencils (spec: SmoothStencil)",
                         "a container of the evaluation point that the implementation refuses (exception) is an observation; "
-                        "ModifiedHalfNormal points only where alpha = beta = gamma (finding C03-F3)"]
+                        "ModifiedHalfNormal points only where alpha = beta = gamma (finding C03-F3)",
+                        "containers: a container kind is used for a point only when it holds the point exactly; single precision points: "
+                        "analytic gradients compared at 1e-5 relative; on the boundary of a support no value is asserted (measure zero), "
+                        "only agreement with the answer for the float64 array"]
 
 
 def replay(ctx, case):
@@ -728,5 +743,5 @@ def replay(ctx, case):
     from cuqiverif import c03_point
     if case.get("probe") is not None:
         return c03_point.replay(ctx, table, case)
-    c03_point.collect_tlc(ctx, c03_point.start_tlc(ctx, "quick"))        # the container table of the spec
+    c03_point.load_table(ctx)                                            # the container table of the spec
     dispatch(ctx, table, case, extras=True, idx=case.get("cfg", {}).get("x", 0))
